@@ -156,7 +156,7 @@ var Profiles = map[string]Profile{
 }
 
 var errnosFor = map[string][]string{
-	"open":   {"EACCES", "ENOSPC", "EROFS", "EMFILE", "EISDIR"},
+	"open":   {"EACCES", "ENOSPC", "EROFS", "EMFILE", "EISDIR", "EACCES", "EPERM"},
 	"write":  {"ENOSPC", "EIO", "EDQUOT"},
 	"close":  {"EIO", "ENOSPC"},
 	"remove": {"EACCES", "EROFS", "EBUSY"},
@@ -178,7 +178,14 @@ func GenScenario(tp *tape.Tape, seed uint64, pf Profile) *Scenario {
 	// rule on the writes (or, after a failed open, on whatever is opened next)
 	for i := range sc.Steps {
 		st := &sc.Steps[i]
-		if st.Kind != StepRun || st.Fault == nil || st.Fault.Action != "error" || st.Fault.Prim == "write" || st.Stdout || !side.Chance(350, 1000) {
+		if st.Kind != StepRun || st.Fault == nil || st.Fault.Action != "error" || st.Fault.Prim == "write" || st.Stdout {
+			continue
+		}
+		pm := 350
+		if st.Fault.Prim == "open" || st.Fault.Prim == "rename" {
+			pm = 700 // the steps whose failure most invites "then do it the other way"
+		}
+		if !side.Chance(pm, 1000) {
 			continue
 		}
 		f2 := &simos.Rule{Prim: "write", Action: []string{"short", "error", "short"}[side.Int(3)], Errno: errnosFor["write"][side.Int(3)], Frac: []int{1, 500, 999}[side.Int(3)]}
